@@ -1,9 +1,37 @@
 (* Proofs about the "next" algorithm model (Next.v) against NextSpec.v.
 
-   Main results (all for every palg A, wf rs, pop_ok pop):
-     pop_first_max_ok, find_prob_child_le, closure (general, for a down-closed
-     set given by [inS]), closure_below, C01_sorted, C01_prob_is_product,
-     C02_exactly_once and corollaries. *)
+   FINDING (T5).  The statement  [pop_ok pop_first_max]  is FALSE for an
+   arbitrary palg: pop_ok quantifies over all queues, including queues that
+   hold non-ok ("NaN") probabilities, and the palg laws constrain ple only on
+   ok values.  On two items whose probabilities are incomparable both ways,
+   pop_first_max returns one of them although the other is "strictly more
+   probable" in the sense of plt.  This is proved below as
+       pop_first_max_not_pop_ok : exists A : palg, ~ pop_ok (@pop_first_max A)
+   (witness: nan_alg, carrier bool, ple = andb, queue [x; x] with iprob x = false).
+   The closest true statement is proved instead:
+       pop_first_max_ok_partial : pop_ok_okb pop_first_max
+   where [pop_ok_okb] is pop_ok with the second clause restricted to queues all
+   of whose probabilities are okb.  [pop_ok pop -> pop_ok_okb pop]
+   (pop_ok_weaken), and every theorem below is first proved under the WEAKER
+   hypothesis pop_ok_okb (names ending in _okb), so that all of them apply to
+   pop_first_max; the versions under pop_ok (names as in the plan) are
+   corollaries.  No definition in ProbAlg.v / Next.v / NextSpec.v was changed.
+
+   Main results (for every palg A, every rs with wf rs):
+     T1  find_prob_child_le
+     T2  C01_sorted (+ pending <= emitted)          [_okb variant]
+     T3  C01_prob_is_product                        [_okb variant]
+     T4  C02_exactly_once, C02_exactly_once_keys, C02_no_early_exhaustion,
+         C02_frontier_nodup                         [_okb variants]
+     T5  pop_first_max_ok_partial, pop_first_max_not_pop_ok
+     T6  closure / closure_okb (general, for a set given by inS satisfying
+         down_closed (H1) and adopter_closed (H2)), closure_below /
+         closure_below_okb (thresholds), below_down_closed, below_adopter_closed.
+   Auxiliary notions defined here: good (characterisation of membership in
+   all_preterminals, lemma In_all_preterminals), adopts (the adopter relation
+   of the Deadbeat-Dad rule; adopts_unique, adopts_exists, adopts_min,
+   In_find_children), closure_set, closure_frontier, down_closed,
+   adopter_closed, Inv (the state invariant; Inv_init, Inv_step, Inv_run). *)
 From Coq Require Import List Arith Bool Lia Sorting.Permutation Sorting.Sorted.
 From Pcfg Require Import ProbAlg Next NextSpec.
 Import ListNotations.
@@ -940,6 +968,360 @@ Qed.
 
 End Closure.
 
+(* The general closure theorem (T6), for the restricted queue contract. *)
+Theorem closure_okb pop inS q0 :
+  pop_ok_okb pop -> down_closed inS -> adopter_closed inS ->
+  Permutation q0 (closure_frontier inS) ->
+  let s := fun n => run pop rs n {| emitted := []; pending := q0 |} in
+  (forall n, nonincreasing (rev (emitted (s n)))) /\
+  (forall n e q, In e (emitted (s n)) -> In q (pending (s n)) ->
+                 ple (iprob q) (iprob e) = true) /\
+  (forall n, NoDup (emitted (s n) ++ pending (s n))) /\
+  (forall n x, In x (emitted (s n) ++ pending (s n)) -> In x (closure_set inS)) /\
+  (forall n, n <= length (closure_set inS) -> length (emitted (s n)) = n) /\
+  Permutation (emitted (s (length (closure_set inS)))) (closure_set inS) /\
+  pending (s (length (closure_set inS))) = [].
+Proof.
+  intros Hpop H1 H2 Hq0 s.
+  pose proof (Inv_init inS q0 Hq0) as HI0.
+  assert (HI : forall n, Inv inS (s n)).
+  { intros n. apply Inv_run; auto. }
+  split; [|split; [|split; [|split; [|split]]]].
+  - intros n. apply (inv_sorted _ _ (HI n)).
+  - intros n. apply (inv_le _ _ (HI n)).
+  - intros n. apply (inv_nodup _ _ (HI n)).
+  - intros n. apply (inv_sub _ _ (HI n)).
+  - intros n Hn. apply (run_length pop Hpop inS H1 H2); auto.
+  - apply (run_complete pop Hpop inS H1 H2); auto.
+Qed.
+
+Theorem closure pop inS q0 :
+  pop_ok pop -> down_closed inS -> adopter_closed inS ->
+  Permutation q0 (closure_frontier inS) ->
+  let s := fun n => run pop rs n {| emitted := []; pending := q0 |} in
+  (forall n, nonincreasing (rev (emitted (s n)))) /\
+  (forall n e q, In e (emitted (s n)) -> In q (pending (s n)) ->
+                 ple (iprob q) (iprob e) = true) /\
+  (forall n, NoDup (emitted (s n) ++ pending (s n))) /\
+  (forall n x, In x (emitted (s n) ++ pending (s n)) -> In x (closure_set inS)) /\
+  (forall n, n <= length (closure_set inS) -> length (emitted (s n)) = n) /\
+  Permutation (emitted (s (length (closure_set inS)))) (closure_set inS) /\
+  pending (s (length (closure_set inS))) = [].
+Proof. intros Hpop. apply closure_okb. apply pop_ok_weaken; auto. Qed.
+
+(* ------------------------------------------------------------------ *)
+(* Instance: thresholds (below m)                                      *)
+(* ------------------------------------------------------------------ *)
+
+Lemma adopts_min p p' c :
+  good rs c -> adopts p c -> In p' (parents rs c) -> ple (iprob p) (iprob p') = true.
+Proof.
+  intros Hgc Had Hp'.
+  destruct (parent_props p' c Hgc Hp') as [Hgp' _].
+  destruct Had as [pos [v [i [Hn [Hp Hm]]]]].
+  apply In_parents in Hp'. destruct Hp' as [pos' [v' [i' [Hn' Hp']]]].
+  destruct (Nat.eq_dec pos' pos) as [->|Hne].
+  - rewrite Hp, Hp'. apply ple_refl. rewrite <- Hp'. apply good_iprob_ok; auto.
+  - rewrite my_child_spec in Hm. destruct (Hm pos' v' i' Hne Hn') as [Ha _].
+    rewrite Hp'. simpl. exact Ha.
+Qed.
+
+Lemma below_down_closed m : okb m = true -> down_closed (below m).
+Proof.
+  intros Hm c p Hc Hp Hb. unfold below in *.
+  apply In_all_preterminals in Hc.
+  destruct (parent_props p c Hc Hp) as [Hgp [Hle _]].
+  apply (ple_trans A (iprob c) (iprob p) m); auto; apply good_iprob_ok; auto.
+Qed.
+
+Lemma below_adopter_closed m : okb m = true -> adopter_closed (below m).
+Proof.
+  intros Hm c p Hc Hb Hex Had. unfold below in *.
+  apply In_all_preterminals in Hc.
+  apply existsb_exists in Hex. destruct Hex as [p' [Hp' Hb']].
+  pose proof (adopts_min p p' c Hc Had Hp') as Hle.
+  destruct (parent_props p' c Hc Hp') as [Hgp' _].
+  destruct (parent_props p c Hc (adopts_parent _ _ Had)) as [Hgp _].
+  apply (ple_trans A (iprob p) (iprob p') m); auto; apply good_iprob_ok; auto.
+Qed.
+
+Theorem closure_below_okb pop m q0 :
+  pop_ok_okb pop -> okb m = true ->
+  Permutation q0 (filter (frontierb rs m) (all_preterminals rs)) ->
+  let SS := filter (below m) (all_preterminals rs) in
+  let s := fun n => run pop rs n {| emitted := []; pending := q0 |} in
+  (forall n, nonincreasing (rev (emitted (s n)))) /\
+  (forall n e q, In e (emitted (s n)) -> In q (pending (s n)) ->
+                 ple (iprob q) (iprob e) = true) /\
+  (forall n, NoDup (emitted (s n) ++ pending (s n))) /\
+  (forall n x, In x (emitted (s n) ++ pending (s n)) -> In x SS) /\
+  (forall n, n <= length SS -> length (emitted (s n)) = n) /\
+  Permutation (emitted (s (length SS))) SS /\
+  pending (s (length SS)) = [].
+Proof.
+  intros Hpop Hm Hq0.
+  apply (closure_okb pop (below m) q0 Hpop (below_down_closed m Hm)
+           (below_adopter_closed m Hm)).
+  exact Hq0.
+Qed.
+
+Theorem closure_below pop m q0 :
+  pop_ok pop -> okb m = true ->
+  Permutation q0 (filter (frontierb rs m) (all_preterminals rs)) ->
+  let SS := filter (below m) (all_preterminals rs) in
+  let s := fun n => run pop rs n {| emitted := []; pending := q0 |} in
+  (forall n, nonincreasing (rev (emitted (s n)))) /\
+  (forall n e q, In e (emitted (s n)) -> In q (pending (s n)) ->
+                 ple (iprob q) (iprob e) = true) /\
+  (forall n, NoDup (emitted (s n) ++ pending (s n))) /\
+  (forall n x, In x (emitted (s n) ++ pending (s n)) -> In x SS) /\
+  (forall n, n <= length SS -> length (emitted (s n)) = n) /\
+  Permutation (emitted (s (length SS))) SS /\
+  pending (s (length SS)) = [].
+Proof. intros Hpop. apply closure_below_okb. apply pop_ok_weaken; auto. Qed.
+
+(* ------------------------------------------------------------------ *)
+(* Instance: the whole grammar (inS := fun _ => true)                  *)
+(* ------------------------------------------------------------------ *)
+
+Lemma all_down_closed : down_closed (fun _ => true).
+Proof. intros c p _ _ _. reflexivity. Qed.
+
+Lemma all_adopter_closed : adopter_closed (fun _ => true).
+Proof. intros c p _ _ _ _. reflexivity. Qed.
+
+Lemma closure_set_all : closure_set (fun _ => true) = all_preterminals rs.
+Proof. unfold closure_set. apply filter_true. Qed.
+
+Lemma zero_pt (t : pt) :
+  Forall (fun vi => snd vi = 0) t -> t = map (fun v => (v, 0)) (map fst t).
+Proof.
+  induction 1 as [|[v i] t H Hf IH]; simpl; auto. simpl in H. subst. f_equal. auto.
+Qed.
+
+Lemma NoDup_init_items : NoDup (init_items rs).
+Proof.
+  apply (NoDup_map_inv itag). unfold init_items. rewrite map_map. simpl.
+  change (NoDup (map fst (combine (seq 0 (length (bases rs))) (bases rs)))).
+  rewrite map_fst_combine; [apply seq_NoDup|apply seq_length].
+Qed.
+
+Lemma In_init_items it :
+  In it (init_items rs) <->
+  In it (all_preterminals rs) /\ existsb (fun _ => true) (parents rs it) = false.
+Proof.
+  unfold init_items. rewrite in_map_iff. split.
+  - intros [[k b] [<- Hkb]]. apply In_combine_seq in Hkb. destruct Hkb as [_ Hn].
+    rewrite Nat.sub_0_r in Hn. simpl. split.
+    + apply In_all_preterminals. exists b. simpl. repeat split; auto.
+      * rewrite map_map. simpl. apply map_id.
+      * apply nth_error_In in Hn. unfold wf in Hwf. rewrite Forall_forall in Hwf.
+        destruct (Hwf b Hn) as [_ Hg]. rewrite Forall_forall in Hg.
+        apply Forall_forall. intros vi Hvi. apply in_map_iff in Hvi.
+        destruct Hvi as [v [<- Hv]]. unfold bound. simpl.
+        destruct (Hg v Hv) as [Hne _]. destruct (groups rs v); [congruence|simpl; lia].
+    + destruct (existsb _ _) eqn:Ex; auto.
+      apply existsb_exists in Ex. destruct Ex as [p [Hp _]].
+      apply In_parents in Hp. destruct Hp as [pos [v [i [Hnth _]]]]. simpl in Hnth.
+      apply nth_error_In in Hnth. apply in_map_iff in Hnth.
+      destruct Hnth as [v' [E _]]. discriminate.
+  - intros [Hin Hex]. apply In_all_preterminals in Hin.
+    pose proof Hin as [b [Hn [Hb [Hf [Hbd Hp]]]]].
+    exists (itag it, b). split.
+    + simpl. rewrite <- Hf, <- Hb.
+      rewrite <- zero_pt; [apply good_eta; auto|].
+      apply Forall_forall. intros [v i] Hvi. simpl.
+      destruct i as [|i]; auto. exfalso.
+      apply In_nth_error in Hvi. destruct Hvi as [pos Hpos].
+      assert (existsb (fun _ : item => true) (parents rs it) = true); [|congruence].
+      apply existsb_exists.
+      exists (mk rs (itag it) (upd (ipt it) pos pred) (ibase it)). split; auto.
+      apply In_parents. eauto.
+    + apply In_combine_seq. rewrite Nat.sub_0_r. split; [lia|auto].
+Qed.
+
+Lemma roots_perm : Permutation (init_items rs) (closure_frontier (fun _ => true)).
+Proof.
+  apply NoDup_Permutation.
+  - apply NoDup_init_items.
+  - apply NoDup_filter. apply NoDup_all_preterminals.
+  - intros it. rewrite In_init_items. unfold closure_frontier. rewrite filter_In.
+    simpl. destruct (existsb _ _); simpl; intuition congruence.
+Qed.
+
+Theorem whole_run_okb pop :
+  pop_ok_okb pop ->
+  let s := fun n => run pop rs n (start rs) in
+  (forall n, nonincreasing (rev (emitted (s n)))) /\
+  (forall n e q, In e (emitted (s n)) -> In q (pending (s n)) ->
+                 ple (iprob q) (iprob e) = true) /\
+  (forall n, NoDup (emitted (s n) ++ pending (s n))) /\
+  (forall n x, In x (emitted (s n) ++ pending (s n)) -> In x (all_preterminals rs)) /\
+  (forall n, n <= total rs -> length (emitted (s n)) = n) /\
+  Permutation (emitted (s (total rs))) (all_preterminals rs) /\
+  pending (s (total rs)) = [].
+Proof.
+  intros Hpop.
+  pose proof (closure_okb pop (fun _ => true) (init_items rs) Hpop
+                all_down_closed all_adopter_closed roots_perm) as H.
+  rewrite closure_set_all in H. exact H.
+Qed.
+
+(* T2 *)
+Theorem C01_sorted_okb pop n :
+  pop_ok_okb pop ->
+  nonincreasing (rev (emitted (run pop rs n (start rs)))) /\
+  (forall e q, In e (emitted (run pop rs n (start rs))) ->
+               In q (pending (run pop rs n (start rs))) ->
+               ple (iprob q) (iprob e) = true).
+Proof.
+  intros Hpop. destruct (whole_run_okb pop Hpop) as [Ha [Hb _]].
+  split; [apply Ha|apply Hb].
+Qed.
+
+Theorem C01_sorted pop n :
+  pop_ok pop ->
+  nonincreasing (rev (emitted (run pop rs n (start rs)))) /\
+  (forall e q, In e (emitted (run pop rs n (start rs))) ->
+               In q (pending (run pop rs n (start rs))) ->
+               ple (iprob q) (iprob e) = true).
+Proof. intros Hpop. apply C01_sorted_okb. apply pop_ok_weaken; auto. Qed.
+
+(* T3 *)
+Theorem C01_prob_is_product_okb pop n it :
+  pop_ok_okb pop ->
+  In it (emitted (run pop rs n (start rs)) ++ pending (run pop rs n (start rs))) ->
+  iprob it = find_prob rs (ipt it) (ibase it) /\ In it (all_preterminals rs).
+Proof.
+  intros Hpop Hin. destruct (whole_run_okb pop Hpop) as [_ [_ [_ [Hd _]]]].
+  pose proof (Hd n it Hin) as Hall. split; auto.
+  apply In_all_preterminals in Hall. destruct Hall as [b [_ [_ [_ [_ Hp]]]]]. exact Hp.
+Qed.
+
+Theorem C01_prob_is_product pop n it :
+  pop_ok pop ->
+  In it (emitted (run pop rs n (start rs)) ++ pending (run pop rs n (start rs))) ->
+  iprob it = find_prob rs (ipt it) (ibase it) /\ In it (all_preterminals rs).
+Proof. intros Hpop. apply C01_prob_is_product_okb. apply pop_ok_weaken; auto. Qed.
+
+(* T4 *)
+Theorem C02_exactly_once_okb pop :
+  pop_ok_okb pop ->
+  Permutation (emitted (run pop rs (total rs) (start rs))) (all_preterminals rs) /\
+  pending (run pop rs (total rs) (start rs)) = [].
+Proof.
+  intros Hpop. destruct (whole_run_okb pop Hpop) as [_ [_ [_ [_ [_ H]]]]]. exact H.
+Qed.
+
+Theorem C02_exactly_once pop :
+  pop_ok pop ->
+  Permutation (emitted (run pop rs (total rs) (start rs))) (all_preterminals rs) /\
+  pending (run pop rs (total rs) (start rs)) = [].
+Proof. intros Hpop. apply C02_exactly_once_okb. apply pop_ok_weaken; auto. Qed.
+
+Corollary C02_exactly_once_keys_okb pop :
+  pop_ok_okb pop ->
+  Permutation (map key (emitted (run pop rs (total rs) (start rs))))
+              (map key (all_preterminals rs)).
+Proof. intros Hpop. apply Permutation_map. apply C02_exactly_once_okb; auto. Qed.
+
+Corollary C02_exactly_once_keys pop :
+  pop_ok pop ->
+  Permutation (map key (emitted (run pop rs (total rs) (start rs))))
+              (map key (all_preterminals rs)).
+Proof. intros Hpop. apply Permutation_map. apply C02_exactly_once; auto. Qed.
+
+Theorem C02_no_early_exhaustion_okb pop n :
+  pop_ok_okb pop -> n <= total rs ->
+  length (emitted (run pop rs n (start rs))) = n.
+Proof.
+  intros Hpop. destruct (whole_run_okb pop Hpop) as [_ [_ [_ [_ [H _]]]]]. apply H.
+Qed.
+
+Theorem C02_no_early_exhaustion pop n :
+  pop_ok pop -> n <= total rs ->
+  length (emitted (run pop rs n (start rs))) = n.
+Proof. intros Hpop. apply C02_no_early_exhaustion_okb. apply pop_ok_weaken; auto. Qed.
+
+Theorem C02_frontier_nodup_okb pop n :
+  pop_ok_okb pop ->
+  NoDup (emitted (run pop rs n (start rs)) ++ pending (run pop rs n (start rs))).
+Proof.
+  intros Hpop. destruct (whole_run_okb pop Hpop) as [_ [_ [H _]]]. apply H.
+Qed.
+
+Theorem C02_frontier_nodup pop n :
+  pop_ok pop ->
+  NoDup (emitted (run pop rs n (start rs)) ++ pending (run pop rs n (start rs))).
+Proof. intros Hpop. apply C02_frontier_nodup_okb. apply pop_ok_weaken; auto. Qed.
+
 End WithWf.
 
 End NextProofs.
+
+(* ------------------------------------------------------------------ *)
+(* T5 as literally stated is false: pop_ok quantifies over all queues, *)
+(* including queues holding non-ok (NaN-like) probabilities, on which   *)
+(* the palg laws say nothing.                                          *)
+(* ------------------------------------------------------------------ *)
+
+Definition nan_alg : palg.
+Proof.
+  refine {| P := bool; ple := andb; pmul := andb;
+            okb := fun a => a; unitb := fun a => a |};
+  intros; repeat match goal with b : bool |- _ => destruct b end;
+  simpl in *; auto; discriminate.
+Defined.
+
+Theorem pop_first_max_not_pop_ok :
+  exists A : palg, ~ pop_ok (@pop_first_max A).
+Proof.
+  exists nan_alg. intros [_ H].
+  pose (x := @Build_item nan_alg 0 [] false false).
+  destruct (H [x; x] x [x] eq_refl) as [_ Hf].
+  inversion Hf; subst. discriminate.
+Qed.
+
+(* Instances for the queue the correspondence checks run. *)
+Section PopFirstMax.
+Context {A : palg}.
+Variable rs : ruleset A.
+Hypothesis Hwf : wf rs.
+
+Theorem C01_sorted_pop_first_max n :
+  nonincreasing (rev (emitted (run pop_first_max rs n (start rs)))).
+Proof. apply C01_sorted_okb; auto. apply pop_first_max_ok_partial. Qed.
+
+Theorem C02_exactly_once_pop_first_max :
+  Permutation (emitted (run pop_first_max rs (total rs) (start rs))) (all_preterminals rs) /\
+  pending (run pop_first_max rs (total rs) (start rs)) = [].
+Proof. apply C02_exactly_once_okb; auto. apply pop_first_max_ok_partial. Qed.
+
+End PopFirstMax.
+
+Check @pop_first_max_ok_partial.
+Check @find_prob_child_le.
+Check @closure.
+Check @closure_okb.
+Check @closure_below.
+Check @C01_sorted.
+Check @C01_prob_is_product.
+Check @C02_exactly_once.
+Check @C02_exactly_once_keys.
+Check @C02_no_early_exhaustion.
+Check @C02_frontier_nodup.
+
+Print Assumptions pop_first_max_ok_partial.
+Print Assumptions find_prob_child_le.
+Print Assumptions C01_sorted.
+Print Assumptions C01_prob_is_product.
+Print Assumptions C02_exactly_once.
+Print Assumptions C02_exactly_once_keys.
+Print Assumptions C02_no_early_exhaustion.
+Print Assumptions C02_frontier_nodup.
+Print Assumptions closure.
+Print Assumptions closure_okb.
+Print Assumptions closure_below.
+Print Assumptions closure_below_okb.
+Print Assumptions pop_first_max_not_pop_ok.
+Print Assumptions C02_exactly_once_pop_first_max.
